@@ -196,6 +196,19 @@ SPECS += [
          props=["C08", "C09", "C20"]),
 ]
 
+SPECS += [
+    # ---- schedule.py : the run loop's choice of the component to update and its stop test (C02 C03) --------------
+    dict(lean="run_select", path="schedule.py", qual="Composition.run", group="Run",
+         slice={"start": "sort_components = list(time_components)", "end": "to_update = sort_components[0]",
+                "result": ["to_update"]},
+         params={"time_components": "List[Obj]"}, ret="Obj", props=["C02", "C03", "C05"], **SCHED_COMMON),
+    dict(lean="run_any_running", path="schedule.py", qual="Composition.run", group="Run",
+         slice={"start": "any_running = False", "end": "for comp in time_components", "result": ["any_running"]},
+         params={"time_components": "List[Obj]", "end_time": "Int"}, ret="Bool",
+         conds={"comp.status != ComponentStatus.FINISHED": "(h.finished comp = false)"},
+         props=["C03"], **SCHED_COMMON),
+]
+
 
 def by_group():
     g = {}
